@@ -66,7 +66,7 @@ Inductive rval : Type :=
 | RSeq (l : list rval)
 | RStruct (l : list rval)                 (* field values in declaration order *)
 | RVar (i : nat) (l : list rval)          (* variant index, its field values   *)
-| RAny (v : jval)                         (* serde_json::Value: the JSON value itself (compare through Json.canon) *)
+| RAny (v : jval)                         (* serde_json::Value *)
 | RAlt (i : nat) (r : rval)               (* untagged enum: which alternative  *)
 | RDefault.                               (* Default::default() of an FGuard field *)
 
@@ -355,7 +355,7 @@ Fixpoint decoder (s : shape) : dec :=
                  | JArr l => option_map RStruct (struct_seq m tbl l)
                  | _ => None
                  end
-  | SAny => fun _ v => Some (RAny v)
+  | SAny => fun _ v => Some (RAny (canon v))   (* a BTreeMap-backed Value: sorted, last duplicate wins *)
   | SNever => fun _ _ => None
   | SAdj tag content vs =>
       let vt := (fix mkv (vs : list (string * vkind * list (string * shape * fattr))) : list ventry :=
